@@ -2,6 +2,7 @@
 # run every check of one tier on the current tree; prints one line per property
 tier=${1:-quick}
 cd "$(dirname "$0")/.."
+mkdir -p /tmp/scratch
 for p in C01 C02 C03 C04 C05 C06 C07 C08 C09 C10 C11 C12 C13 C14 C15 C16; do
   s=$(date +%s); out=$(./check $p --tier $tier 2>/tmp/scratch/runall.$p.err); rc=$?; e=$(date +%s)
   echo "$p rc=$rc $((e-s))s $(echo "$out" | grep -E 'VIOLATION|KNOWN' | head -2) $(grep -aE 'MODEL-DRIFT|INFRA' /tmp/scratch/runall.$p.err | head -1 | cut -c1-160)"
